@@ -427,7 +427,13 @@ func (vars algorithmCreateTermDefinition) Call() error {
 
 	// [spec // 4.2.2 // 14] If *value* contains the entry `@id` and its value does not equal `term`:
 
-	if idMember, ok := valueObject.Members["@id"]; ok {
+	idMember, ok := valueObject.Members["@id"]
+	if idString, isString := idMember.Value.(inspectjson.StringValue); ok && isString && idString.Value == vars.term {
+		// "... and its value does not equal term": continue with step 15
+		ok = false
+	}
+
+	if ok {
 
 		// [spec // 4.2.2 // 14.1] If the `@id` entry of *value* is `null`, the term is not used for IRI expansion, but is retained to be able to detect future redefinitions of this term.
 
